@@ -89,6 +89,48 @@ def gen_case(rng, spec):
 
 # ---------------------------------------------------------------------------
 # independent structural predicates (M2)
+def unary_cycle_info(cfg):
+    """(has a cycle of unary rules, number of cancelled edges, edges) by DFS colours - independent of the
+    library's SCC code."""
+    V = set(cfg.V)
+
+    def nt(y):
+        return y not in V
+
+    rules = [(r.head, tuple(r.body)) for r in cfg.rules]
+    edges = {}
+    # Over a field parallel unary rules may cancel (exactly, or by floating-point absorption, also among rules
+    # *derived* by an earlier transformation): the library's unary graph then has no such edge, and whether the
+    # rules still "are" a unary step is outside what C06/C07 state -- such an edge is not counted.
+    tot, big = {}, {}
+    for r in cfg.rules:
+        if len(r.body) == 1 and nt(r.body[0]):
+            try:
+                w = float(getattr(r.w, "score", r.w))
+            except (TypeError, ValueError):
+                continue
+            k = (r.head, r.body[0])
+            tot[k] = tot.get(k, 0.0) + w
+            big[k] = max(big.get(k, 0.0), abs(w))
+    cancelled = {k for k, v in tot.items() if abs(v) * 2**20 < big[k]}
+    for h, b in rules:
+        if len(b) == 1 and nt(b[0]) and (h, b[0]) not in cancelled:
+            edges.setdefault(h, set()).add(b[0])
+    col = {}
+
+    def dfs(u):
+        col[u] = 1
+        for v in edges.get(u, ()):
+            c = col.get(v, 0)
+            if c == 1 or (c == 0 and dfs(v)):
+                return True
+        col[u] = 2
+        return False
+
+    cyc = any(col.get(u, 0) == 0 and dfs(u) for u in list(edges))
+    return cyc, len(cancelled), edges
+
+
 def shape_violations(name, cfg_in, out):
     """List of (mech, detail) for the postconditions that apply to transformation `name`."""
     V = set(out.V)
@@ -119,37 +161,8 @@ def shape_violations(name, cfg_in, out):
                 bad.append((f"{base}/unary-rule-left", {"rule": [h, list(b)]}))
                 break
     if base == "unarycycleremove" or name.startswith("nullaryremove()."):
-        edges = {}
-        # Over a field parallel unary rules may cancel (exactly, or by floating-point absorption, also among rules
-        # *derived* by an earlier transformation): the library's unary graph then has no such edge, and whether the
-        # rules still "are" a unary step is outside what C06/C07 state -- such an edge is not counted.
-        tot, big = {}, {}
-        for r in out.rules:
-            if len(r.body) == 1 and nt(r.body[0]):
-                try:
-                    w = float(getattr(r.w, "score", r.w))
-                except (TypeError, ValueError):
-                    continue
-                k = (r.head, r.body[0])
-                tot[k] = tot.get(k, 0.0) + w
-                big[k] = max(big.get(k, 0.0), abs(w))
-        cancelled = {k for k, v in tot.items() if abs(v) * 2**20 < big[k]}
-        for h, b in rules:
-            if len(b) == 1 and nt(b[0]) and (h, b[0]) not in cancelled:
-                edges.setdefault(h, set()).add(b[0])
-        # cycle detection by DFS colours
-        col = {}
-
-        def dfs(u):
-            col[u] = 1
-            for v in edges.get(u, ()):
-                c = col.get(v, 0)
-                if c == 1 or (c == 0 and dfs(v)):
-                    return True
-            col[u] = 2
-            return False
-
-        if any(col.get(u, 0) == 0 and dfs(u) for u in list(edges)):
+        cyc, _, edges = unary_cycle_info(out)
+        if cyc:
             bad.append(("unarycycleremove/unary-cycle-left", {"edges": {repr(k): sorted(map(repr, v)) for k, v in edges.items()}}))
     if base in ("binarize", "cnf"):
         for h, b in rules:
@@ -200,6 +213,21 @@ def shape_violations(name, cfg_in, out):
     return bad
 
 
+def check_has_unary_cycle(ctx, case, cfg, where):
+    """The library's own cycle predicate (SCC buckets of the unary graph) against the DFS predicate."""
+    cyc, ncancel, edges = unary_cycle_info(cfg)
+    if ncancel:
+        ctx.skip("cfg.has_unary_cycle", "generator:cancelling-parallel-unary-rules")
+        return
+    c2 = dict(case, predicate_on=where)
+    ok, v = ctx.call("cfg.has_unary_cycle", c2, cfg.has_unary_cycle, mech_prefix="has_unary_cycle")
+    if ok:
+        ctx.shape["has_unary_cycle:" + ("yes" if cyc else "no")] += 1
+        ctx.check("cfg.has_unary_cycle", bool(v) == cyc, "has_unary_cycle/disagrees-with-dfs-predicate", c2,
+                  {"has_unary_cycle": bool(v), "independent_predicate": cyc, "on": where,
+                   "edges": {repr(k): sorted(map(repr, e)) for k, e in edges.items()}})
+
+
 def run_case(case, ctx, mode):
     """mode: 'language' (C06) or 'structure' (C07)."""
     from rv import codec, lib
@@ -246,6 +274,8 @@ def run_case(case, ctx, mode):
             indep = not shape_violations("cnf", cfg, cfg)
             ctx.check("cfg.cnf", bool(verdict) == indep, "in_cnf/disagrees-with-shape-predicate", dict(case, transformation="in_cnf"),
                       {"in_cnf": bool(verdict), "independent_predicate": indep, "rules": [[r.w, r.head, list(r.body)] for r in cfg.rules][:30]})
+    if mode == "structure":
+        check_has_unary_cycle(ctx, case, cfg, "input")
     for name, thunk in transformations(cfg, rng):
         api = f"cfg.{name.split('(')[0]}" if mode == "structure" else "T(cfg)(xs)"
         c2 = dict(case, transformation=name)
@@ -254,6 +284,7 @@ def run_case(case, ctx, mode):
             continue
         ctx.shape[f"T:{name.split('(')[0]}"] += 1
         if mode == "structure":
+            check_has_unary_cycle(ctx, c2, out, name.split("(")[0])
             bad = shape_violations(name, cfg, out)
             if name == "cnf" and not bad:
                 okc, v2 = ctx.call(api, c2, out.in_cnf, mech_prefix="in_cnf")
